@@ -259,6 +259,15 @@ func (g *gen) isUint8(e ast.Expr) bool {
 	return ok && b.Kind() == types.Uint8
 }
 
+// wideInt: integer types whose arithmetic is modelled on natural numbers without wrap-around
+func wideInt(b *types.Basic) bool {
+	switch b.Kind() {
+	case types.Int, types.Uint, types.Int64, types.Uint64, types.Uintptr, types.UntypedInt:
+		return true
+	}
+	return false
+}
+
 func (g *gen) isString(e ast.Expr) bool {
 	b, ok := g.typeOf(e).Underlying().(*types.Basic)
 	return ok && b.Info()&types.IsString != 0
@@ -427,6 +436,23 @@ func (g *gen) expr(e ast.Expr, en *env) string {
 			}
 		} else {
 			u8 := g.isUint8(x)
+			switch x.Op {
+			case token.SHL, token.ADD, token.SUB, token.MUL, token.QUO, token.REM:
+				// integers are natural numbers in the model: uint8 results are wrapped mod 256, 64-bit results are assumed
+				// not to overflow; everything else (int8/16/32, uint16/32, signed subtraction, division by a non-constant
+				// or non-positive divisor) is refused rather than modelled wrongly
+				if bt, ok := g.typeOf(x).Underlying().(*types.Basic); ok && bt.Info()&types.IsInteger != 0 && !u8 && !wideInt(bt) {
+					g.die(x, "arithmetic on %s is not modelled", bt.Name())
+				}
+				if x.Op == token.SUB && !u8 {
+					g.die(x, "subtraction on a non-uint8 integer may go negative: not modelled")
+				}
+				if x.Op == token.QUO || x.Op == token.REM {
+					if d := g.constInt(x.Y); d == nil || *d == 0 {
+						g.die(x, "division by a non-constant or zero divisor is not modelled")
+					}
+				}
+			}
 			wrap := func(s string) string {
 				if u8 {
 					return "(Nat.mod " + s + " 256)"
@@ -448,7 +474,7 @@ func (g *gen) expr(e ast.Expr, en *env) string {
 				if u8 {
 					return fmt.Sprintf("(Nat.mod (Nat.sub (Nat.add %s 256) %s) 256)", a, b)
 				}
-				return fmt.Sprintf("(Nat.sub %s %s)", a, b) // int: callers stay non-negative (checked by correspondence)
+				return fmt.Sprintf("(Nat.sub %s %s)", a, b) // unreachable (refused above)
 			case token.MUL:
 				return wrap(fmt.Sprintf("(Nat.mul %s %s)", a, b))
 			case token.QUO:
@@ -480,10 +506,14 @@ func (g *gen) expr(e ast.Expr, en *env) string {
 				return "(F64.ofNat " + arg + ")"
 			case to.Kind() == types.Uint8 && from.Info()&types.IsInteger != 0:
 				return "(Nat.mod " + arg + " 256)"
-			case to.Info()&types.IsInteger != 0 && from.Info()&types.IsInteger != 0:
+			case wideInt(to) && from.Info()&types.IsInteger != 0:
+				// widening (or same-size) conversion of a natural number; values are never negative in translated code
+				// because subtraction is only translated for uint8 (wrapped)
 				return arg
-			case to.Info()&types.IsInteger != 0 && from.Info()&types.IsFloat != 0:
-				return "(F64.truncAbs " + arg + ")" // non-negative values only (prototype)
+			case wideInt(to) && from.Info()&types.IsFloat != 0:
+				// modelled for non-negative in-range values (|x| truncated): recorded in the trusted base; the float
+				// stream and the score streams compare the real conversion
+				return "(F64.truncAbs " + arg + ")"
 			}
 			g.die(x, "conversion %s", g.src(x))
 		}
@@ -527,7 +557,7 @@ func (g *gen) expr(e ast.Expr, en *env) string {
 						return "(Go.cut " + args[0] + " " + args[1] + ")"
 					}
 				}
-				if id.Name == "math" {
+				if pn, ok := g.info.Uses[id].(*types.PkgName); ok && pn.Imported().Path() == "math" {
 					switch f.Sel.Name {
 					case "Round":
 						return "(F64.round " + args[0] + ")"
@@ -780,6 +810,8 @@ func (g *gen) stmts(ss []ast.Stmt, en *env, c ctx, ind string) string {
 		val := fmt.Sprintf("(%s %s %s)", op, leanName(id.Name), one)
 		if g.isUint8(x.X) {
 			val = "(Nat.mod " + val + " 256)"
+		} else if bt, ok := g.typeOf(x.X).Underlying().(*types.Basic); ok && bt.Info()&types.IsInteger != 0 && !wideInt(bt) {
+			g.die(s, "++ on %s is not modelled", bt.Name())
 		}
 		return fmt.Sprintf("F64.flet %s fun %s =>\n%s%s", val, leanName(id.Name), ind, next())
 	case *ast.AssignStmt:
@@ -813,6 +845,13 @@ func (g *gen) stmts(ss []ast.Stmt, en *env, c ctx, ind string) string {
 						rhs = fmt.Sprintf("(F64.add %s %s)", leanName(name), rhs)
 					} else {
 						rhs = fmt.Sprintf("(Nat.add %s %s)", leanName(name), rhs)
+						bt, _ := g.typeOf(x.Lhs[0]).Underlying().(*types.Basic)
+						switch {
+						case bt != nil && bt.Kind() == types.Uint8:
+							rhs = "(Nat.mod " + rhs + " 256)"
+						case bt == nil || !wideInt(bt):
+							g.die(s, "+= on %s is not modelled", g.typeOf(x.Lhs[0]))
+						}
 					}
 				default:
 					g.die(s, "assignment operator %s", x.Tok)
@@ -916,6 +955,10 @@ func (g *gen) stmts(ss []ast.Stmt, en *env, c ctx, ind string) string {
 			if id, ok := x.Key.(*ast.Ident); !ok || id.Name != "_" {
 				g.die(s, "range with key")
 			}
+		}
+		if _, isSlice := g.typeOf(x.X).Underlying().(*types.Slice); !isSlice {
+			// a string ranges over runes (UTF-8 decoding), a map in random order, an array by copy, a channel/func/int …
+			g.die(s, "range over %s is not modelled (slices only)", g.typeOf(x.X))
 		}
 		v := "_"
 		if id, ok := x.Value.(*ast.Ident); ok {
@@ -1261,12 +1304,32 @@ func posOf(fset *token.FileSet, p token.Pos) string {
 	return filepath.Base(fset.Position(p).Filename)
 }
 
+// onlyUnderVerifTag: the file's build constraint is exactly `verif`
+func onlyUnderVerifTag(path string) bool {
+	data, err := os.ReadFile(path)
+	if err != nil {
+		return false
+	}
+	for _, line := range strings.Split(string(data), "\n") {
+		t := strings.TrimSpace(line)
+		if strings.HasPrefix(t, "package ") {
+			return false
+		}
+		if strings.HasPrefix(t, "//go:build") {
+			return strings.TrimSpace(strings.TrimPrefix(t, "//go:build")) == "verif"
+		}
+	}
+	return false
+}
+
 func main() {
 	dir, ns, imp := os.Args[1], os.Args[2], os.Args[3]
 	roots := os.Args[4:]
 	fset := token.NewFileSet()
 	pkgs, err := parser.ParseDir(fset, dir, func(fi os.FileInfo) bool {
-		return !strings.HasSuffix(fi.Name(), "_test.go") && !strings.HasPrefix(fi.Name(), "zz_verif")
+		// every non-test file of the package is translated / inspected, except the verification hooks — recognised by their
+		// build constraint (`//go:build verif`: not part of an ordinary build), never by their name
+		return !strings.HasSuffix(fi.Name(), "_test.go") && !onlyUnderVerifTag(filepath.Join(dir, fi.Name()))
 	}, 0)
 	if err != nil {
 		panic(err)
@@ -1286,6 +1349,16 @@ func main() {
 		pkg, err := conf.Check(p.Name, fset, files, info)
 		if err != nil {
 			panic(err)
+		}
+		// builtins and predeclared names are recognised by name below: nothing in the package may redefine one
+		for id, obj := range info.Defs {
+			if obj == nil {
+				continue
+			}
+			if types.Universe.Lookup(id.Name) != nil {
+				fmt.Fprintf(os.Stderr, "%s: unsupported: the package redefines the predeclared identifier %q\n", fset.Position(id.Pos()), id.Name)
+				os.Exit(1)
+			}
 		}
 		g := &gen{fset: fset, info: info, pkg: pkg, funcs: map[string]*ast.FuncDecl{}, recv: map[string]string{}, reads: map[string][]string{}, tables: map[string]*ast.ValueSpec{}, done: map[string]bool{}, ns: ns, readExprs: map[string]string{},
 			errVars: map[string]int{}, errTypes: map[string]int{}, mutates: map[string]bool{}, ptrParam: map[string]bool{},
@@ -1350,6 +1423,11 @@ func main() {
 								g.funcs[id.Name+"."+x.Name.Name] = x
 								continue
 							}
+						}
+						if prev != nil && x.Name.Name != "init" && x.Name.Name != "_" {
+							// functions and methods of the object type share one name space in the model
+							fmt.Fprintf(os.Stderr, "%s: unsupported: two declarations named %q (a function and a method, or methods of two object types)\n", fset.Position(x.Pos()), x.Name.Name)
+							os.Exit(1)
 						}
 						if x.Recv != nil && len(x.Recv.List[0].Names) > 0 {
 							rn := x.Recv.List[0].Names[0].Name
@@ -2727,6 +2805,9 @@ func (g *gen) pstmts(ss []ast.Stmt, en *env, c ctx, ind string) string {
 		vid, ok := x.Value.(*ast.Ident)
 		if !ok || x.Tok != token.DEFINE {
 			g.die(s, "range value")
+		}
+		if _, isSlice := g.typeOf(x.X).Underlying().(*types.Slice); !isSlice {
+			g.die(s, "range over %s is not modelled (slices only: a string ranges over runes)", g.typeOf(x.X))
 		}
 		pre := g.hoist(x.X, en, c.pan, ind)
 		xs := g.expr(x.X, en)
